@@ -720,6 +720,18 @@ func (env *specEnv) call(n *ECall) Val {
 		}
 		t := env.resolveType(s.V)
 		return Val{T: tBool, L: []string{seq(v.L[0], e.typeTag(t))}}
+	case "has":
+		// has(m, k): key k is present in map m
+		m := env.eval(n.Args[0])
+		mt, ok := typeUnder(m.T).(*types.Map)
+		if !ok {
+			sfail("has(map, key)")
+		}
+		kv := env.typed(env.eval(n.Args[1]), mt.Key())
+		return env.withState(env.st, func() Val {
+			_, present := e.mapGet(m.L[0], mt, e.mapKey(mt, kv))
+			return Val{T: tBool, L: []string{sand(snot(seq(m.L[0], "0")), present)}}
+		})
 	case "allocated":
 		v := env.eval(n.Args[0])
 		a := env.withState(env.old, func() Val { return Val{L: []string{e.heapArr("$alloc", "(Array Int Bool)")}} })
